@@ -114,10 +114,29 @@ def _fmt(case):
     return " ".join(str(int(x)) for x in case)
 
 
+# a chunk of cases takes seconds; a harness process that has not finished after this long is hanging on a case
+IMPL_CHUNK_TIMEOUT = 240
+DEATHS = [0]         # harness processes that died in this check run (a watchdog in the harness kills slow cases)
+HANGS = [0]          # hangs seen in this check run: after the first, chunks get 30 s; after the third, nothing more is run
+
+
 def _run_impl_chunk(args):
     binary, lines, timeout = args
-    p = subprocess.run([binary], input="\n".join(lines) + "\n", stdout=subprocess.PIPE,
-                       stderr=subprocess.PIPE, text=True, timeout=timeout, env=ENV)
+    if HANGS[0] >= 3:
+        return "hung", [], "not run: the implementation already hung three times in this check"
+    limit = min(timeout, IMPL_CHUNK_TIMEOUT if HANGS[0] == 0 else 30)
+    try:
+        p = subprocess.run([binary], input="\n".join(lines) + "\n", stdout=subprocess.PIPE,
+                           stderr=subprocess.PIPE, text=True, timeout=limit, env=ENV)
+    except subprocess.TimeoutExpired as e:
+        HANGS[0] += 1
+        out = e.stdout or ""
+        if isinstance(out, bytes):
+            out = out.decode(errors="replace")
+        # only complete lines count: the case after them is the one that never returned
+        done = out.split("\n")[:-1]
+        outs = [l for l in done if not l.startswith("WARNING conda")]
+        return "hung", outs, "no result within %d s" % min(timeout, IMPL_CHUNK_TIMEOUT)
     outs = [l for l in p.stdout.splitlines() if not l.startswith("WARNING conda")]
     return p.returncode, outs, p.stderr[-2000:]
 
@@ -125,7 +144,8 @@ def _run_impl_chunk(args):
 def run_impl(binary, cases, timeout=600, chunk=None):
     """Runs the real library on the cases; returns one result (list of int) per
     case.  A harness process that dies (abort, stack overflow, kill) is
-    reported as result [-2] for the case it died on."""
+    reported as result [-2] for the case it died on, one that does not return
+    within IMPL_CHUNK_TIMEOUT seconds as [-5]."""
     lines = [_fmt(c) for c in cases]
     n = len(lines)
     if n == 0:
@@ -137,10 +157,15 @@ def run_impl(binary, cases, timeout=600, chunk=None):
         for (binary_, ls, _), (rc, outs, err) in zip(jobs, ex.map(_run_impl_chunk, jobs)):
             parsed = [[int(t) for t in o.split()] for o in outs]
             if len(parsed) < len(ls):
-                # the process died on case len(parsed); mark it, rerun the rest
+                # the process died ([-2]) or hung ([-5]) on case len(parsed); mark it, rerun the rest
                 k = len(parsed)
-                parsed.append([-2])
-                if k + 1 < len(ls):
+                parsed.append([-5] if rc == "hung" else [-2])
+                if rc != "hung":
+                    DEATHS[0] += 1
+                if HANGS[0] >= 3 or DEATHS[0] >= 8:
+                    # the check has its violations; do not spend minutes on every further dying / hanging case
+                    parsed.extend([[-5] if rc == "hung" else [-2]] * (len(ls) - k - 1))
+                elif k + 1 < len(ls):
                     rest = [[int(t) for t in l.split()] for l in ls[k + 1:]]
                     parsed.extend(run_impl(binary, rest, timeout, chunk=max(1, len(rest))))
             results.extend(parsed)
@@ -423,9 +448,16 @@ class Report:
         d = self.cov["distribution"]
         d[key] = d.get(key, 0) + n
 
+    MAX_REPLAYS = 12
+
     def violation(self, detail, nofail=False):
         os.makedirs(os.path.join(REPLAYS, self.prop), exist_ok=True)
         k = len(self.violations)
+        if k >= self.MAX_REPLAYS and not nofail:
+            # enough replay files: further failing inputs of the same run are only counted
+            self.cov["violations_beyond_the_first_%d" % self.MAX_REPLAYS] = \
+                self.cov.get("violations_beyond_the_first_%d" % self.MAX_REPLAYS, 0) + 1
+            return
         path = os.path.join(REPLAYS, self.prop, "%s_%s_%d_%d.json" % (self.prop, self.tier, self.seed, k))
         detail = dict(detail)
         detail["property"] = self.prop
